@@ -123,6 +123,21 @@ CHECK_DEADLOCK TRUE
                 o = floods[v['idx'] - 1]
                 violations.append(dict(sig=dict(f=v['which']), replay=dict(property=prop, flood=o, violation=v['which']),
                                        text='flood of %d first lookups (%d workers): %s: %s' % (o['n'], o['workers'], v['which'], json.dumps(o, sort_keys=True))))
+        # the estimate a target is first assigned with: the cycle formula C20 of RebalanceProps on real coordinator cycles
+        # (the discovery hands out new target objects in every round, as the real one does)
+        from . import cycle as CY
+        cyc = dict(evaluations=0, nontrivial=0)
+        if not replay or 'input' in json.load(open(replay)):
+            sub = os.path.join(scratch, 'cyc')
+            os.makedirs(sub, exist_ok=True)
+            r = CY.run_pipeline(tier, sub, sizes=((100, 900, 3) if tier == 'quick' else (400, 6000, 4)),
+                                inputs=([json.load(open(replay))['input']] if replay else None))
+            cyc = dict(evaluations=len(r['obs']), nontrivial=r['stats'].get('nontrivial', {}).get('C20', 0))
+            for v in r['viol']:
+                if v['prop'] == 'C20':
+                    o = r['obs'][v['idx'] - 1]
+                    violations.append(dict(sig=dict(f=v['sig'].get('f')), replay=dict(property=prop, input=r['inputs'][o['id']], observed=o['out'], violation=v['sig']),
+                                           text='cycle input %s: %s' % (o['id'], json.dumps(v['sig'], sort_keys=True))))
         notes = sum(len(r.get('notes') or []) for r in recs)
         kinds = {}
         for r in recs:
@@ -132,7 +147,7 @@ CHECK_DEADLOCK TRUE
                    traces_validated_against_impl=len(recs) - len(set(v['id'] for v in viol)),
                    samples=[dict(schedule=r['schedule'], recorded_events=[{k: e[k] for k in ('seq', 'ev', 't', 'ok', 'health', 'series', 'total', 'set')} for e in r['events']]) for r in recs[:1]],
                    evaluations=len(recs), distinct_nontrivial=stats.get('nontrivial', 0), events_recorded=kinds,
-                   schedule_steps_the_code_did_not_follow=notes, flood_runs=floods, lock_model_states=el['distinct'],
+                   schedule_steps_the_code_did_not_follow=notes, flood_runs=floods, lock_model_states=el['distinct'], first_assignment_cycles=cyc,
                    rule='one evaluation = one TLC-simulated schedule (lookups, discovery updates that remove / keep / re-add targets, probe completions with '
                         'chosen result and order, retry timers) executed on the real Explore with 2 workers, blocking HTTP targets and a %d ms retry interval; '
                         'non-trivial: the history contains a failed probe (counted by TLC)' % 30,
